@@ -3,11 +3,12 @@
    [junk].  Proved here: a successful reset / new / dropped result leaves a state whose
    received-set is empty whatever happened before (so a round's input is only what is added
    after it), and by computation the round output is the same under different junk and after
-   different histories (instances).  The general junk-independence theorem is in progress. *)
+   different histories (instances).  The general theorems (C05_stale_memory,
+   C05_same_objects_same_future) hold for every operation sequence, one-shot calls included. *)
 From Coq Require Import NArith Bool List Lia FMapPositive.
 From RS.Gen Require Import Prelude GenConsts.
 From RS.Model Require Import Field Tables Sched Codec Layout Machine.
-From RS.Proofs Require Import Junk Hist.
+From RS.Proofs Require Import Junk Hist OneShotJunk.
 Import ListNotations.
 Local Open Scope N_scope.
 
@@ -49,12 +50,11 @@ Proof. intros. cbn. repeat split. Qed.
 Print Assumptions C05_drop_forgets.
 
 (* ---- the unbounded theorems ---- *)
-(* (1) stale memory: along ANY sequence of streaming-API calls from any state satisfying the
+(* (1) stale memory: along ANY sequence of calls (streaming API and one-shot functions) from any state satisfying the
    machine invariant (every reachable state does: step_Inv), every result is the same for any
    two contents of the working memory that was not written in the current round *)
-Theorem C05_stale_memory : forall junk1 junk2 ops, forallb (fun o => negb (uses_oneshot o)) ops = true ->
-  forall s, Inv s -> run junk1 s ops = run junk2 s ops.
-Proof. exact run_junk. Qed.
+Theorem C05_stale_memory : forall junk1 junk2 ops s, Inv s -> run junk1 s ops = run junk2 s ops.
+Proof. exact run_junk_all. Qed.
 Print Assumptions C05_stale_memory.
 
 Theorem C05_invariant : Inv init /\ forall junk s o, Inv s -> Inv (fst (step junk s o)).
@@ -64,10 +64,17 @@ Print Assumptions C05_invariant.
 (* (2) history: two states that hold the same objects up to the capacity they own - whatever
    their histories, epochs and stashed work spaces - give the same results for every
    continuation, under any two stale memories *)
-Theorem C05_same_objects_same_future : forall junk1 junk2 ops, forallb (fun o => negb (uses_oneshot o)) ops = true ->
-  forall s t, sim s t -> Inv s -> Inv t -> snd (run junk1 s ops) = snd (run junk2 t ops).
-Proof. exact run_sim. Qed.
+Theorem C05_same_objects_same_future : forall junk1 junk2 ops s t,
+  sim s t -> Inv s -> Inv t -> snd (run junk1 s ops) = snd (run junk2 t ops).
+Proof. exact run_sim_all. Qed.
 Print Assumptions C05_same_objects_same_future.
+
+(* the one-shot functions depend on their arguments only: not on stale memory, not on the epoch *)
+Theorem C05_oneshot : forall junk1 junk2 ep1 ep2 K R,
+  (forall shards, oneshot_encode junk1 ep1 K R shards = oneshot_encode junk2 ep2 K R shards) /\
+  (forall orig rec, oneshot_decode junk1 ep1 K R orig rec = oneshot_decode junk2 ep2 K R orig rec).
+Proof. intros; split; intros; [apply oneshot_encode_junk|apply oneshot_decode_junk]. Qed.
+Print Assumptions C05_oneshot.
 
 (* (3) a successfully reset encoder/decoder IS the freshly constructed one (up to capacity),
    and a codec built on recycled working space is the one built on none *)
